@@ -61,6 +61,9 @@ CLAIMED = {
     'C20': ('CBMC/DFCC function contract on code extracted from /repo each run',
             'proof that histogram_t::bin(v) equals the counting rule #{j: t_j <= v} for every finite real v / integer |v|<=2^53 and every sorted threshold list of symbolic length',
             'std::upper_bound partition-point contract assumed (ghost index); thresholds sorted, not NaN', '7/C20'),
+    'C18': ('CBMC/DFCC frame conditions (assigns clauses) on code extracted from /repo each run, struct layouts generated from clang\'s class definitions; a token-level scan of mutable/static state as a labelled lint',
+            'partial: proof that the const interface the library shares across fold / trial / chunk tasks writes nothing of the shared object (solver and its owned line-search prototypes, loss, dataset and generators, iterators, fitted weak learners, tuning result accessors), and that the objects written concurrently by design are written disjointly (slot [tnum], rows [begin,end), cell (trial, fold)); the interleaving semantics itself, the pool\'s synchronisation under real concurrency and floating-point re-association of reductions are not decided',
+            'two tasks race only if one writes what the other accesses: frames decide the write sets sequentially; erased callees assumed to write only what they are handed by non-const reference; C13 / C17 contracts used as preconditions', '7/C18'),
 }
 
 NA = {}
@@ -75,6 +78,18 @@ def main():
         if pid not in CLAIMED:
             continue
         tech, text, note, ref = CLAIMED[pid]
+        # the level text is regenerated from what the spec itself reports as decided / not decided (kept current by every run)
+        evp = os.path.join(HERE, 'evidence', f'{pid}.json')
+        if os.path.exists(evp):
+            try:
+                cov = json.load(open(evp)).get('coverage', {})
+                dec, nd = cov.get('decided_clauses') or [], cov.get('not_decided') or []
+                if dec:
+                    text = ('proof, per function and for all inputs (modular contracts on code extracted from /repo on every run), of: ' +
+                            ' || '.join(dec) + (' -- NOT decided (outside the contracts, never counted): ' + ' || '.join(nd) if nd else '') +
+                            (' -- bounded stand-ins (labelled bounded, never counted as proved): ' + ' || '.join(f"{b.get('target')} [{b.get('bound')}]" for b in cov.get('bounded', [])) if cov.get('bounded') else ''))
+            except (ValueError, OSError):
+                pass
         checks.append({
             'property_id': pid,
             'quick_cmd': f'./check {pid} --tier quick',
